@@ -127,3 +127,16 @@ package scenario
 //@ requires sample != nil && g.gun != nil && g.gun.Aggr != nil
 //@ ensures [one-failed-sample-or-nothing] ev(report) == old(ev(report)) + ite(err != nil, 1, 0)
 //@ ensures [the-error-is-attached] imp(err != nil, sample.err == err && sample.fields[netsample.keyProtoCode] == 0)
+
+//@ func (a *Scenario) SetID
+//@ props C10 C15
+//@ nilsafe
+//@ requires a != nil
+//@ ensures a.id == id
+//@ modifies a.id
+
+// A new templater (with an empty template cache) per call.
+//@ func NewTextTemplater
+//@ props C15 C11 C20
+//@ modifies nothing
+//@ ensures [a-new-templater-with-an-empty-cache] result != nil && typeis(result, *TextTemplater) && fresh(result.(*TextTemplater))
